@@ -4,10 +4,16 @@
 (* are kept, so that "nearest integer within half a unit" is unambiguous.              *)
 EXTENDS D4, TLC, Json
 
-Triples == { <<3, 4, 5>>, <<4, 3, 5>>, <<5, 12, 13>>, <<12, 5, 13>>, <<8, 15, 17>>, <<15, 8, 17>> }
+Triples == { <<3, 4, 5>>, <<4, 3, 5>>, <<5, 12, 13>>, <<12, 5, 13>>, <<8, 15, 17>>, <<15, 8, 17>>,
+             \* within one degree of a right angle (0.996, 89.004, 90.996, ... degrees): an angle whose integer part is a
+             \* multiple of 90 is NOT that multiple of 90
+             <<13224, 230, 13226>>, <<230, 13224, 13226>> }
 Signed == { <<sx * t[1], sy * t[2], t[3]>> : t \in Triples, sx \in {1, -1}, sy \in {1, -1} }
 Offsets == { <<0, 0>>, <<-7, 5>> }
-Grid == (-3..3) \X (-3..3)
+NearGrid == (-3..3) \X (-3..3)
+\* a degree of rotation moves a point 60 units from the origin by a whole unit: far points for the near-right angles
+Far == { <<200, 40>>, <<-150, 90>>, <<60, -200>>, <<0, 100>>, <<100, 0>>, <<-77, -133>> }
+Grid == NearGrid \cup Far
 VARIABLE c
 Init == c \in [cs : Signed, r : BOOLEAN, loc : Offsets]
 Next == UNCHANGED c
@@ -18,7 +24,8 @@ Safe(n, d) == LET f == (2 * n) % (2 * d) IN 5 * Abs(f - d) >= d
 Img(p) == PythImageNum(c.cs[1], c.cs[2], c.r, p)
 Pts == { <<p[1], p[2], Img(p)[1], Img(p)[2]>> : p \in { q \in Grid : Safe(Img(q)[1], c.cs[3]) /\ Safe(Img(q)[2], c.cs[3]) } }
 \* a rotation preserves length: |num|^2 = d^2 |p|^2
-LengthPreserved == \A p \in Grid : (Img(p)[1] * Img(p)[1]) + (Img(p)[2] * Img(p)[2])
+\* (32-bit arithmetic: small triples, near points)
+LengthPreserved == c.cs[3] > 100 \/ \A p \in NearGrid : (Img(p)[1] * Img(p)[1]) + (Img(p)[2] * Img(p)[2])
                                      = c.cs[3] * c.cs[3] * ((p[1] * p[1]) + (p[2] * p[2]))
 RECURSIVE SetToSeq(_)
 SetToSeq(S) == IF S = {} THEN <<>> ELSE LET x == CHOOSE y \in S : TRUE IN <<x>> \o SetToSeq(S \ {x})
